@@ -174,6 +174,24 @@ def install(native=False):
         zipfile.ZipInfo.from_file = classmethod(_untraced(zipfile.ZipInfo.from_file.__func__))
         STUBS.append("zipfile.ZipFile primitives run under NoTracing (they read the clock; member names and data are concrete)")
 
+    # 13. pandas readers/writers are Cython code that rejects CrossHair's container replacements (set() -> ShellMutableSet):
+    #     the csv/excel entry points run untraced (frames are concrete data in every harness)
+    if not native:
+        try:
+            import pandas as _pd
+            for n in ("read_csv", "read_excel"):
+                f = getattr(_pd, n)
+                if not getattr(f, "__verif_untraced__", False):
+                    setattr(_pd, n, _untraced(f))
+            for cls in (_pd.DataFrame, _pd.Series):
+                for n in ("to_csv", "to_excel", "equals"):
+                    f = getattr(cls, n)
+                    if not getattr(f, "__verif_untraced__", False):
+                        setattr(cls, n, _untraced(f))
+            STUBS.append("pandas.read_csv/read_excel and DataFrame/Series.to_csv/to_excel/equals run under NoTracing (Cython code, concrete data)")
+        except ImportError:
+            pass
+
     # 3. clock
     if hasattr(ms, "_trace_time"):
         ms._trace_time = lambda: 0
